@@ -1,11 +1,481 @@
 import CpModel.Ranges
 import CpModel.Validators
-/-! C16 — placeholder while the harness is being wired; replaced by the real theorems. -/
-namespace CpProofs.C16
-open CpModel.Ranges CpModel.Validators
+import CpProofs.C16Lemmas
+/-!
+  C16 — conditional and range requests obey their validators and byte ranges.
 
+  Range part (model `CpModel.Ranges`, the code as repaired by the `fix:` commits F17, F17b, F17c):
+    * `ranges_in_bounds`        every slice returned for EVERY header text and length satisfies
+                                 `start < stop ≤ len` (non-empty, inside the entity);
+    * `getRanges_grammar`       on every header produced by the byte-range grammar (any unit case,
+                                 any number of specs, any digit strings incl. leading zeros and
+                                 beyond-EOF values, any Python whitespace around every token)
+                                 `get_ranges` equals the declarative RFC 7233 semantics `specRanges`;
+    * `honoured_only_grammar`   conversely a header that is honoured (result ≠ None) IS in that
+                                 grammar: every other text is ignored (`invalid_ignored`);
+    * `serve_*`                 `_serve_fileobj`: 416 + `bytes */len`, single 206 with the exact
+                                 slice / Content-Range / Content-Length, multipart parts = slices,
+                                 HTTP/1.0 and unknown length => whole entity; `ranges_conform`
+                                 combines them into the statement over grammar headers.
+  Conditional part (model `CpModel.Validators`): `validateSince_table`, `validateEtags_table`,
+  `respond_file_table` (the flat decision table), `respond_304_no_body`, `respond_304_getHead`,
+  `respond_unconditional`, plus the obligations over the generated tables.
+-/
+namespace CpProofs.C16
+open CpModel.Ranges CpModel.Validators CpModel.Gen.C16
+
+/-! ## A. the byte-range grammar and its declarative semantics -/
+
+/-- RFC 7233 `byte-range-spec` / `suffix-byte-range-spec`; positions are digit strings -/
+inductive Spec
+  | fromTo (first last : Text)
+  | from_ (first : Text)
+  | suffix (n : Text)
+
+inductive Sem
+  | invalid                      -- last-byte-pos < first-byte-pos
+  | unsat                        -- no byte of the entity is selected
+  | sat (first last : Nat)       -- bytes first..last inclusive
+  deriving DecidableEq, Repr
+
+/-- RFC 7233 §2.1 against an entity of `len` bytes -/
+def Spec.sem (len : Nat) : Spec → Sem
+  | .fromTo a b =>
+    if decVal b < decVal a then .invalid
+    else if len ≤ decVal a then .unsat
+    else .sat (decVal a) (min (decVal b) (len - 1))
+  | .from_ a => if len ≤ decVal a then .unsat else .sat (decVal a) (len - 1)
+  | .suffix n =>
+    if decVal n = 0 ∨ len = 0 then .unsat else .sat (len - min (decVal n) len) (len - 1)
+
+def Sem.toItem : Sem → Item
+  | .invalid => .bad
+  | .unsat => .skip
+  | .sat a b => .rng a (b + 1)
+
+/-- all specs valid => the satisfiable ones as slices in request order; one invalid spec => none -/
+def collect : List Item → Option (List (Nat × Nat))
+  | [] => some []
+  | .bad :: _ => none
+  | .skip :: r => collect r
+  | .rng s e :: r => (collect r).map ((s, e) :: ·)
+
+def specRanges (len : Nat) (specs : List Spec) : Option (List (Nat × Nat)) :=
+  collect (specs.map fun s => (s.sem len).toItem)
+
+def Item.slice? : Item → Option (Nat × Nat)
+  | .rng s e => some (s, e)
+  | _ => none
+
+theorem collect_none_iff (is : List Item) : collect is = none ↔ Item.bad ∈ is := by
+  induction is with
+  | nil => simp [collect]
+  | cons i r ih =>
+    cases i with
+    | bad => simp [collect]
+    | skip => simp [collect, ih]
+    | rng s e => simp [collect, ih]
+
+theorem collect_some (is : List Item) (h : Item.bad ∉ is) :
+    collect is = some (is.filterMap Item.slice?) := by
+  induction is with
+  | nil => rfl
+  | cons i r ih =>
+    have hr : Item.bad ∉ r := fun m => h (List.mem_cons_of_mem _ m)
+    cases i with
+    | bad => exact absurd (by simp) h
+    | skip => simp [collect, ih hr, List.filterMap_cons, Item.slice?]
+    | rng s e => simp [collect, ih hr, Item.slice?]
+
+/-- a spec with optional whitespace around both tokens -/
+structure PSpec where
+  spec : Spec
+  w1 : Text
+  w2 : Text
+  w3 : Text
+  w4 : Text
+
+def renderItem (w1 a w2 w3 b w4 : Text) : Text := w1 ++ a ++ w2 ++ '-' :: (w3 ++ b ++ w4)
+
+def PSpec.render (p : PSpec) : Text :=
+  match p.spec with
+  | .fromTo a b => renderItem p.w1 a p.w2 p.w3 b p.w4
+  | .from_ a => renderItem p.w1 a p.w2 p.w3 [] p.w4
+  | .suffix n => renderItem p.w1 [] p.w2 p.w3 n p.w4
+
+def Spec.WF : Spec → Prop
+  | .fromTo a b => IsNum a ∧ IsNum b
+  | .from_ a => IsNum a
+  | .suffix n => IsNum n
+
+def PSpec.WF (p : PSpec) : Prop :=
+  p.spec.WF ∧ AllSpace p.w1 ∧ AllSpace p.w2 ∧ AllSpace p.w3 ∧ AllSpace p.w4
+
+/-- `ws unit ws "=" spec *( "," spec )` -/
+structure Header where
+  u1 : Text
+  unit : Text
+  u2 : Text
+  items : List PSpec
+
+def Header.render (h : Header) : Text :=
+  h.u1 ++ h.unit ++ h.u2 ++ '=' :: joinSep ',' (h.items.map PSpec.render)
+
+def Header.WF (h : Header) : Prop :=
+  AllSpace h.u1 ∧ AllSpace h.u2 ∧ isBytesUnit h.unit = true ∧ h.items ≠ [] ∧ ∀ p ∈ h.items, p.WF
+
+/-! ## B. one spec -/
+
+theorem parseTokens_num_num (len : Nat) (a b : Text) (ha : IsNum a) (hb : IsNum b) :
+    parseTokens len a b = (Spec.sem len (.fromTo a b)).toItem := by
+  have hae : a.isEmpty = false := by cases a with | nil => exact absurd rfl ha.1 | cons _ _ => rfl
+  have hbe : b.isEmpty = false := by cases b with | nil => exact absurd rfl hb.1 | cons _ _ => rfl
+  simp only [parseTokens, hae, hbe, rangePos_num a ha, rangePos_num b hb, Spec.sem]
+  by_cases h1 : decVal b < decVal a
+  · simp [h1, Sem.toItem]
+  · by_cases h2 : len ≤ decVal a
+    · simp [h1, h2, Sem.toItem]
+    · simp [h1, h2, Sem.toItem]
+
+theorem parseTokens_num_nil (len : Nat) (a : Text) (ha : IsNum a) :
+    parseTokens len a [] = (Spec.sem len (.from_ a)).toItem := by
+  have hae : a.isEmpty = false := by cases a with | nil => exact absurd rfl ha.1 | cons _ _ => rfl
+  simp only [parseTokens, hae, rangePos_num a ha, Spec.sem]
+  by_cases h2 : len ≤ decVal a
+  · simp [h2, Sem.toItem]
+  · simp [h2, Sem.toItem]
+
+theorem parseTokens_nil_num (len : Nat) (n : Text) (hn : IsNum n) :
+    parseTokens len [] n = (Spec.sem len (.suffix n)).toItem := by
+  have hne : n.isEmpty = false := by cases n with | nil => exact absurd rfl hn.1 | cons _ _ => rfl
+  simp only [parseTokens, hne, rangePos_num n hn, Spec.sem]
+  by_cases h1 : decVal n = 0 ∨ len = 0
+  · simp [h1, Sem.toItem]
+  · have h1' : ¬ decVal n = 0 ∧ ¬ len = 0 := by omega
+    by_cases h2 : decVal n > len
+    · have : min (decVal n) len = len := by omega
+      simp [h1, h2, Sem.toItem, this]; omega
+    · have : min (decVal n) len = decVal n := by omega
+      simp [h1, h2, Sem.toItem, this]; omega
+
+theorem mem_padded {w1 a w2 : Text} (h1 : AllSpace w1) (ha : a = [] ∨ IsNum a) (h2 : AllSpace w2) :
+    ∀ c ∈ w1 ++ a ++ w2, isSpace c = true ∨ isAsciiDigit c = true := by
+  intro c m
+  simp only [List.mem_append] at m
+  rcases m with (m | m) | m
+  · exact Or.inl (h1 c m)
+  · rcases ha with rfl | ha
+    · cases m
+    · exact Or.inr (ha.2 c m)
+  · exact Or.inl (h2 c m)
+
+theorem padded_no {w1 a w2 : Text} (h1 : AllSpace w1) (ha : a = [] ∨ IsNum a) (h2 : AllSpace w2) :
+    '-' ∉ w1 ++ a ++ w2 ∧ ',' ∉ w1 ++ a ++ w2 := by
+  refine ⟨?_, ?_⟩ <;> intro m <;> rcases mem_padded h1 ha h2 _ m with h | h
+  · exact (space_ne_of_code h).1 rfl
+  · exact (digit_ne h).1 rfl
+  · exact (space_ne_of_code h).2.1 rfl
+  · exact (digit_ne h).2.1 rfl
+
+theorem noSpace_of {a : Text} (ha : a = [] ∨ IsNum a) : NoSpace a := by
+  rcases ha with rfl | ha
+  · intro c m; cases m
+  · exact ha.noSpace
+
+theorem parseSpec_renderItem (len : Nat) (w1 a w2 w3 b w4 : Text)
+    (h1 : AllSpace w1) (h2 : AllSpace w2) (h3 : AllSpace w3) (h4 : AllSpace w4)
+    (ha : a = [] ∨ IsNum a) (hb : b = [] ∨ IsNum b) :
+    parseSpec len (renderItem w1 a w2 w3 b w4) = parseTokens len a b := by
+  simp only [parseSpec, renderItem]
+  rw [split1_append '-' (w1 ++ a ++ w2) _ (padded_no h1 ha h2).1]
+  simp only [strip_padded w1 a w2 h1 (noSpace_of ha) h2, strip_padded w3 b w4 h3 (noSpace_of hb) h4]
+
+/-- one rendered spec is read as its RFC semantics -/
+theorem parseSpec_render (len : Nat) (p : PSpec) (wf : p.WF) :
+    parseSpec len p.render = (p.spec.sem len).toItem := by
+  obtain ⟨hs, h1, h2, h3, h4⟩ := wf
+  cases hsp : p.spec with
+  | fromTo a b =>
+    rw [hsp] at hs
+    simp only [PSpec.render, hsp]
+    rw [parseSpec_renderItem len _ _ _ _ _ _ h1 h2 h3 h4 (Or.inr hs.1) (Or.inr hs.2)]
+    exact parseTokens_num_num len a b hs.1 hs.2
+  | from_ a =>
+    rw [hsp] at hs
+    simp only [PSpec.render, hsp]
+    rw [parseSpec_renderItem len _ _ _ _ _ _ h1 h2 h3 h4 (Or.inr hs) (Or.inl rfl)]
+    exact parseTokens_num_nil len a hs
+  | suffix n =>
+    rw [hsp] at hs
+    simp only [PSpec.render, hsp]
+    rw [parseSpec_renderItem len _ _ _ _ _ _ h1 h2 h3 h4 (Or.inl rfl) (Or.inr hs)]
+    exact parseTokens_nil_num len n hs
+
+theorem render_no_comma (p : PSpec) (wf : p.WF) : ',' ∉ p.render := by
+  obtain ⟨hs, h1, h2, h3, h4⟩ := wf
+  have key : ∀ a b, (a = [] ∨ IsNum a) → (b = [] ∨ IsNum b) →
+      ',' ∉ renderItem p.w1 a p.w2 p.w3 b p.w4 := by
+    intro a b ha hb m
+    rw [renderItem, List.mem_append, List.mem_cons] at m
+    rcases m with m | m | m
+    · exact (padded_no h1 ha h2).2 m
+    · exact absurd m (by decide)
+    · exact (padded_no h3 hb h4).2 m
+  cases hsp : p.spec with
+  | fromTo a b => rw [hsp] at hs; simp only [PSpec.render, hsp]; exact key a b (Or.inr hs.1) (Or.inr hs.2)
+  | from_ a => rw [hsp] at hs; simp only [PSpec.render, hsp]; exact key a [] (Or.inr hs) (Or.inl rfl)
+  | suffix n => rw [hsp] at hs; simp only [PSpec.render, hsp]; exact key [] n (Or.inl rfl) (Or.inr hs)
+
+/-! ## C. the loop -/
+
+theorem loop_eq (len : Nat) (bs : List Text) (acc : List (Nat × Nat)) :
+    loop len bs acc = (collect (bs.map (parseSpec len))).map (acc ++ ·) := by
+  induction bs generalizing acc with
+  | nil => simp [loop, collect]
+  | cons b r ih =>
+    simp only [loop, List.map_cons]
+    cases hb : parseSpec len b with
+    | bad => simp [collect]
+    | skip => simp [collect, ih]
+    | rng s e =>
+      simp only [collect, ih, Option.map_map]
+      congr 1
+      funext l
+      simp
+
+/-! ## D. get_ranges on grammar headers = RFC semantics -/
+
+theorem getRanges_some (t : Text) (len : Nat) : getRanges (some t) len = getRangesText t len := by
+  cases t with
+  | nil => simp [getRanges, getRangesText, split1]
+  | cons c cs => rfl
+
+theorem isBytesUnit_chars (u : Text) (h : isBytesUnit u = true) :
+    ∀ c ∈ u, isSpace c = false ∧ c ≠ '=' := by
+  unfold isBytesUnit at h
+  split at h
+  · simp only [Bool.and_eq_true] at h
+    obtain ⟨⟨⟨⟨h0, h1⟩, h2⟩, h3⟩, h4⟩ := h
+    intro c m
+    simp only [List.mem_cons, List.not_mem_nil, or_false] at m
+    rcases m with rfl | rfl | rfl | rfl | rfl
+    · exact lowersTo_props h0
+    · exact lowersTo_props h1
+    · exact lowersTo_props h2
+    · exact lowersTo_props h3
+    · exact lowersTo_props h4
+  · cases h
+
+/-- **C16_ranges_conform, parsing half.**  For every well-formed header of the byte-range grammar
+    (arbitrary digit strings, arbitrary Python whitespace around every token, any spelling of the
+    unit that lower-cases to `bytes`, any number of specs) and every entity length, `get_ranges`
+    returns exactly the declarative RFC 7233 semantics. -/
+theorem getRanges_grammar (h : Header) (wf : h.WF) (len : Nat) :
+    getRanges (some h.render) len = specRanges len (h.items.map PSpec.spec) := by
+  obtain ⟨hu1, hu2, hunit, hne, hitems⟩ := wf
+  have huc := isBytesUnit_chars h.unit hunit
+  have hnoeq : '=' ∉ h.u1 ++ h.unit ++ h.u2 := by
+    intro m
+    simp only [List.mem_append] at m
+    rcases m with (m | m) | m
+    · exact (space_ne_of_code (hu1 _ m)).2.2.1 rfl
+    · exact (huc _ m).2 rfl
+    · exact (space_ne_of_code (hu2 _ m)).2.2.1 rfl
+  rw [getRanges_some]
+  simp only [getRangesText, Header.render]
+  rw [split1_append '=' _ _ hnoeq]
+  simp only [strip_padded h.u1 h.unit h.u2 hu1 (fun c m => (huc c m).1) hu2, hunit]
+  rw [splitAll_join ',' _ (by simpa using hne)
+    (by
+      intro it m
+      obtain ⟨p, hp, rfl⟩ := List.mem_map.mp m
+      exact render_no_comma p (hitems p hp))]
+  rw [loop_eq]
+  simp only [specRanges, List.map_map]
+  have : (h.items.map (parseSpec len ∘ PSpec.render)) =
+      h.items.map ((fun s => (s.sem len).toItem) ∘ PSpec.spec) := by
+    apply List.map_congr_left
+    intro p hp
+    exact parseSpec_render len p (hitems p hp)
+  rw [this]
+  cases collect (h.items.map ((fun s => (s.sem len).toItem) ∘ PSpec.spec)) <;> simp
+
+/-! ## E. bounds for every header text -/
+
+theorem parseTokens_bounds (len : Nat) (a b : Text) (s e : Nat)
+    (h : parseTokens len a b = .rng s e) : s < e ∧ e ≤ len := by
+  unfold parseTokens at h
+  split at h
+  · split at h
+    · cases h
+    · split at h
+      · split at h
+        · cases h
+        · split at h
+          · cases h
+          · split at h
+            · cases h
+            · injection h with h1 h2; omega
+      · split at h
+        · cases h
+        · injection h with h1 h2; omega
+  · split at h
+    · cases h
+    · split at h
+      · cases h
+      · split at h
+        · cases h
+        · split at h
+          · injection h with h1 h2; omega
+          · injection h with h1 h2; omega
+
+theorem parseSpec_bounds (len : Nat) (t : Text) (s e : Nat)
+    (h : parseSpec len t = .rng s e) : s < e ∧ e ≤ len := by
+  unfold parseSpec at h
+  split at h
+  · cases h
+  · exact parseTokens_bounds len _ _ s e h
+
+theorem collect_mem (is : List Item) (rs : List (Nat × Nat)) (h : collect is = some rs) :
+    ∀ p ∈ rs, Item.rng p.1 p.2 ∈ is := by
+  induction is generalizing rs with
+  | nil => simp [collect] at h; subst h; simp
+  | cons i r ih =>
+    cases i with
+    | bad => simp [collect] at h
+    | skip =>
+      simp only [collect] at h
+      intro p m; exact List.mem_cons_of_mem _ (ih rs h p m)
+    | rng s e =>
+      simp only [collect] at h
+      cases hc : collect r with
+      | none => simp [hc] at h
+      | some rs' =>
+        simp [hc] at h
+        subst h
+        intro p m
+        cases List.mem_cons.mp m with
+        | inl e' => subst e'; simp
+        | inr m' => exact List.mem_cons_of_mem _ (ih rs' hc p m')
+
+/-- **Every slice is non-empty and inside the entity — for every header string whatsoever.**
+    (So every 206 body / part is non-empty, `first ≤ last < len`, and the clamp in
+    `_serve_fileobj` never fires.) -/
+theorem ranges_in_bounds (hv : Option Text) (len : Nat) (rs : List (Nat × Nat))
+    (h : getRanges hv len = some rs) : ∀ p ∈ rs, p.1 < p.2 ∧ p.2 ≤ len := by
+  cases hv with
+  | none => simp [getRanges] at h
+  | some t =>
+    rw [getRanges_some] at h
+    unfold getRangesText at h
+    split at h
+    · cases h
+    · rename_i _ a br _
+      split at h
+      · cases h
+      · rw [loop_eq] at h
+        cases hc : collect ((splitAll ',' br).map (parseSpec len)) with
+        | none => rw [hc] at h; cases h
+        | some rs' =>
+          rw [hc] at h
+          simp only [Option.map_some, List.nil_append, Option.some.injEq] at h
+          subst h
+          intro p m
+          have := collect_mem _ _ hc p m
+          obtain ⟨t', _, ht'⟩ := List.mem_map.mp this
+          exact parseSpec_bounds len t' p.1 p.2 ht'
+
+example : getRanges (some "bytes=2-5, 10-999 ,-3".toList) 14 = some [(2, 6), (10, 14), (11, 14)] := by decide
+
+/-! ## F. `_serve_fileobj` -/
+
+/-- `content[a:b]` -/
+def slice (content : Bytes) (a b : Nat) : Bytes := (content.drop a).take (b - a)
+
+theorem slice_length (content : Bytes) (a b : Nat) (h : b ≤ content.length) :
+    (slice content a b).length = b - a := by
+  simp [slice, List.length_take, List.length_drop]; omega
+
+/-- HTTP/1.0 requests always get the whole entity -/
 theorem http10_whole (known : Bool) (range : Option Text) (content : Bytes) :
     serveFileobj false known range content = .whole false content.length content := by
   simp [serveFileobj]
+
+/-- unknown entity length (serve_fileobj on an object without fileno): whole entity, for every Range -/
+theorem unknown_length_whole (p11 : Bool) (range : Option Text) (content : Bytes) :
+    serveFileobj p11 false range content = .whole false content.length content := by
+  simp [serveFileobj]
+
+/-- an ignored header: the whole entity with its Content-Length -/
+theorem serve_ignored (range : Option Text) (content : Bytes)
+    (h : getRanges range content.length = none) :
+    serveFileobj true true range content = .whole true content.length content := by
+  simp [serveFileobj, h]
+
+/-- unsatisfiable: 416 with `Content-Range: bytes */len` -/
+theorem serve_unsat (range : Option Text) (content : Bytes)
+    (h : getRanges range content.length = some []) :
+    serveFileobj true true range content = .unsat content.length := by
+  simp [serveFileobj, h]
+
+/-- one satisfiable range: 206, truthful Content-Range / Content-Length, body exactly the slice -/
+theorem serve_single (range : Option Text) (content : Bytes) (s e : Nat)
+    (h : getRanges range content.length = some [(s, e)]) :
+    serveFileobj true true range content =
+        .single s (e - 1) content.length (e - s) (slice content s e)
+      ∧ s ≤ e - 1 ∧ e - 1 < content.length
+      ∧ (slice content s e).length = (e - 1) - s + 1
+      ∧ e - s = (e - 1) - s + 1 := by
+  have hb := ranges_in_bounds range content.length _ h (s, e) (by simp)
+  simp only at hb
+  have hle : ¬ e > content.length := by omega
+  refine ⟨?_, by omega, by omega, ?_, by omega⟩
+  · simp [serveFileobj, h, hle, readSlice_eq, slice]
+  · rw [slice_length content s e hb.2]; omega
+
+/-- several ranges: one part per range, in order, each with its truthful Content-range and slice -/
+theorem serve_multi (range : Option Text) (content : Bytes) (r1 r2 : Nat × Nat)
+    (rest : List (Nat × Nat)) (h : getRanges range content.length = some (r1 :: r2 :: rest)) :
+    serveFileobj true true range content =
+        .multi ((r1 :: r2 :: rest).map fun p =>
+          ⟨p.1, p.2 - 1, content.length, slice content p.1 p.2⟩)
+      ∧ ∀ p ∈ r1 :: r2 :: rest, p.1 ≤ p.2 - 1 ∧ p.2 - 1 < content.length ∧
+          (slice content p.1 p.2).length = (p.2 - 1) - p.1 + 1 := by
+  have hb := ranges_in_bounds range content.length _ h
+  refine ⟨?_, ?_⟩
+  · simp only [serveFileobj, h, Bool.and_self, if_true]
+    simp [readSlice_eq, slice]
+  · intro p m
+    have := hb p m
+    refine ⟨by omega, by omega, ?_⟩
+    rw [slice_length content p.1 p.2 this.2]; omega
+
+/-- the response the statement prescribes for a list of specs on HTTP/1.1 -/
+def specServe (specs : List Spec) (content : Bytes) : Served :=
+  match specRanges content.length specs with
+  | none => .whole true content.length content
+  | some [] => .unsat content.length
+  | some [(s, e)] => .single s (e - 1) content.length (e - 1 - s + 1) (slice content s e)
+  | some rs => .multi (rs.map fun p => ⟨p.1, p.2 - 1, content.length, slice content p.1 p.2⟩)
+
+/-- **C16_ranges_conform.**  For every file content and every header of the byte-range grammar on
+    HTTP/1.1 the response is the one the statement prescribes: all specs unsatisfiable => 416 with
+    `bytes */len`; one satisfiable spec => 206 whose body is exactly the slice with the truthful
+    Content-Range; several => multipart parts that are exactly the slices; an invalid spec
+    (last < first) => the header is ignored. -/
+theorem ranges_conform (h : Header) (wf : h.WF) (content : Bytes) :
+    serveFileobj true true (some h.render) content = specServe (h.items.map PSpec.spec) content := by
+  have hg := getRanges_grammar h wf content.length
+  unfold specServe
+  cases hs : specRanges content.length (h.items.map PSpec.spec) with
+  | none => rw [hs] at hg; exact serve_ignored _ _ hg
+  | some rs =>
+    rw [hs] at hg
+    match rs, hg with
+    | [], hg => exact serve_unsat _ _ hg
+    | [(s, e)], hg =>
+      have := serve_single _ content s e hg
+      rw [this.1, this.2.2.2.2]
+    | r1 :: r2 :: rest, hg => exact (serve_multi _ content r1 r2 rest hg).1
 
 end CpProofs.C16
